@@ -156,8 +156,11 @@ func TestC28Server(t *testing.T) {
 				return
 			}
 		}
-		failing = true
-		defer func() { failing = t.Failed() }()
+		defer func() {
+			if t.Failed() {
+				failing = true
+			}
+		}()
 		c := genCase(t, false)
 		ref := refDecide(c)
 		twoStage := (c.Req == kGet || c.Req == kHead) && ref.NeedsObject
@@ -223,8 +226,11 @@ func TestC28ServerStored(t *testing.T) {
 				return
 			}
 		}
-		failing = true
-		defer func() { failing = t.Failed() }()
+		defer func() {
+			if t.Failed() {
+				failing = true
+			}
+		}()
 		c := genCase(t, true)
 		aclLocal := rapid.Bool().Draw(t, "acl-checker-sees-local-object")
 		ref := refDecide(c)
